@@ -160,12 +160,12 @@ func init() {
 	})
 	register(&PropSpec{
 		ID: "C04",
-		Explanation: "Decided: R-REFLECT (g) - Elem() only of a pointer known not to be nil (through parameters and callers); (h) - Set on a struct field only under CanSet() or a recover scope; R-TERM - the sub-object-defaults descent is bounded by a visited path, the inline-shorthand chain by a guard method (exception E-CHAINGUARD). Decided: R-UNSETNIL (CanInterface clause) and R-REFLECT (e, f) - field access through the field cache does not walk through nil embedded pointers, values of unexported fields are not read, Convert to run-time types needs CanConvert. no reachable unguarded panic site of three classes in the functions reachable from Unserialize/Validate/Serialize/ValidateCompatibility " +
+		Explanation: "Decided: R-KINDPRE - every kind-restricted method of reflect.Value (Len, Index, MapKeys, MapIndex, MapRange, SetMapIndex, NumField, Field*, Elem, IsNil, Int, Uint, Float, Bool) is called on a Value whose own kind is known to fit (provenance, a Kind() comparison on every path, the callers, the callee whose result it wraps), 6 exceptions E-OWNTYPE / E-PROBE; R-REFLECT (i) - Set / SetMapIndex with a dynamically typed value only behind AssignableTo, Convert or a recover; R-TERM exception E-DEFAULTGUARD - the values of the schema fed back into Unserialize (defaults, sub-object defaults) are examined by a bounded guard first. NOT decided: Go values that contain themselves (Validate / Serialize recurse with the value). Decided: R-REFLECT (g) - Elem() only of a pointer known not to be nil (through parameters and callers); (h) - Set on a struct field only under CanSet() or a recover scope; R-TERM - the sub-object-defaults descent is bounded by a visited path, the inline-shorthand chain by a guard method (exception E-CHAINGUARD). Decided: R-UNSETNIL (CanInterface clause) and R-REFLECT (e, f) - field access through the field cache does not walk through nil embedded pointers, values of unexported fields are not read, Convert to run-time types needs CanConvert. no reachable unguarded panic site of three classes in the functions reachable from Unserialize/Validate/Serialize/ValidateCompatibility " +
 			"(and typed variants) of all Serializable implementers, outside recover scopes - R-ASSERT: every single-value type assertion is justified by dynamic-type " +
 			"provenance, a validator summary, a TypeID gate, the meta-root argument, or a named structural exception class; R-NILGUARD: every dereference of a field or " +
 			"parameter that the repository itself compares with nil is dominated by a non-nil fact on the same access path (dominator facts + must-dataflow for lazy-init); " +
 			"R-MAPNIL: no dereference of a pointer/interface map element looked up without presence check unless the key provably comes from the same map. " +
-			"Also decided: R-EXPLICIT (explicit panics classified by data taint), R-REFLECT (a) methods on reflect.TypeOf(x), (b) zero-Value-panicking methods on reflect.ValueOf(x), (c) validity and key assignability of MapIndex, (d) Set / SetMapIndex with reflect.ValueOf(x) - for a possibly nil x, with must-hold validity facts over branch edges; R-HASHKEY (unhashable interface-typed map keys); R-DIVZERO; R-MUSTCALL; R-TERM (every call cycle through a reference dereference consumes input; 3 demonstrated stack overflows are known findings). NOT decided: panic classes outside these (reflect kind/assignability preconditions, arithmetic, index bounds, third-party code), loops and cyclic Go data, " +
+			"Also decided: R-EXPLICIT (explicit panics classified by data taint), R-REFLECT (a) methods on reflect.TypeOf(x), (b) zero-Value-panicking methods on reflect.ValueOf(x), (c) validity and key assignability of MapIndex, (d) Set / SetMapIndex with reflect.ValueOf(x) - for a possibly nil x, with must-hold validity facts over branch edges; R-HASHKEY (unhashable interface-typed map keys); R-DIVZERO; R-MUSTCALL; R-TERM (every call cycle through a reference dereference consumes input or is bounded by a guard; the four demonstrated stack overflows are repaired). NOT decided: panic classes outside these (reflect kind/assignability preconditions, arithmetic, index bounds, third-party code), loops and cyclic Go data, " +
 			"hence level 'other', not a proof of totality.",
 		Assumptions: []string{wellFormed},
 		Rules: []func(*Ctx){
@@ -211,7 +211,7 @@ func init() {
 	})
 	register(&PropSpec{
 		ID: "C06",
-		Explanation: "Decided R-STARTGATE - a run's registration and the writing of its work start lie in one section read-locked by an RWMutex that Close write-holds for the client-done message; R-READFIRST - the read loop is started before the work start is written; R-RELOCK - no call made inside a critical section takes the same mutex again; R-DONEGATE also over every Add on the WaitGroup Close waits for, and no insertion replaces a pending entry; R-WG accepts a count reserved by a callee and requires its release. Decided R-SIGORDER, R-DONEGATE, R-SIGCHAN - the signal forwarder starts after the work start is written, runs are registered only on an open client, emitted signals are handed over with a way out; every send / close pair on a caller's signal channel is separated by goroutine confinement, the state mutex or the hand-over marker; every close goes with the removal of the table entry; every end of a run closes its channel. (structural necessary conditions for the absence of lost hand-overs and lost wake-ups in the client): R-ATOMIC - the running flag is cleared only " +
+		Explanation: "Decided: R-FORWARDALL - the signal forwarder leaves its loop only on a closed channel, cancellation or a failed write. Decided R-STARTGATE - a run's registration and the writing of its work start lie in one section read-locked by an RWMutex that Close write-holds for the client-done message; R-READFIRST - the read loop is started before the work start is written; R-RELOCK - no call made inside a critical section takes the same mutex again; R-DONEGATE also over every Add on the WaitGroup Close waits for, and no insertion replaces a pending entry; R-WG accepts a count reserved by a callee and requires its release. Decided R-SIGORDER, R-DONEGATE, R-SIGCHAN - the signal forwarder starts after the work start is written, runs are registered only on an open client, emitted signals are handed over with a way out; every send / close pair on a caller's signal channel is separated by goroutine confinement, the state mutex or the hand-over marker; every close goes with the removal of the table entry; every end of a run closes its channel. (structural necessary conditions for the absence of lost hand-overs and lost wake-ups in the client): R-ATOMIC - the running flag is cleared only " +
 			"in a critical section that also scans the pending table, and set in the section that tested it and starts the read loop; presence-check-then-insert on guarded " +
 			"tables happens in one critical section; R-MUSTPASS - every exit of the read loop has cleared the running flag since the last read; R-PAIR - the result store is " +
 			"followed by Signal in the same critical section and Wait is guarded by a test of the condition; R-WG - Add dominates each go whose goroutine calls Done, Done is " +
@@ -238,7 +238,7 @@ func init() {
 	})
 	register(&PropSpec{
 		ID: "C07",
-		Explanation: "Decided: R-CHAN no-report-after-Done - nothing that can send on the error channel runs after a goroutine's Done (defer order included); R-SIGNONFATAL - no step-fatal report on behalf of a signal. Decided: R-PLUGINPANIC - no explicit panic in the plugin entry point. R-CHAN - no goroutine can send on the error channel after its close (close must be joined with all sending goroutines), the report loop only " +
+		Explanation: "Decided: R-DEFERUNLOCK - a mutex held across a call of a function kept in a field (the step's initializer) is released by a deferred unlock; R-LOCKSET - the guarded fields of the server session and of the callable step are touched under their mutex only. Decided: R-CHAN no-report-after-Done - nothing that can send on the error channel runs after a goroutine's Done (defer order included); R-SIGNONFATAL - no step-fatal report on behalf of a signal. Decided: R-PLUGINPANIC - no explicit panic in the plugin entry point. R-CHAN - no goroutine can send on the error channel after its close (close must be joined with all sending goroutines), the report loop only " +
 			"stops when the channel is closed or hands over to a deferred drain that keeps receiving until then, no report is sent non-blockingly, and the client's signal channels are closed/sent under one discipline; R-RECOVER - every " +
 			"goroutine that runs step code does so below a recover scope; R-EXACTLYONE - every path of the step runner, including the panic path through the recover handler, " +
 			"emits exactly one terminal message; R-WG for the server goroutines; R-MAPNIL - unknown step / signal IDs cannot be dereferenced (server side of C11). " +
@@ -261,7 +261,7 @@ func init() {
 	})
 	register(&PropSpec{
 		ID: "C08",
-		Explanation: "Decided: R-DELIVER per-run deliveries - a result or step-fatal error that reaches no waiting call breaks the stream; R-SIGCHAN refusal clause - a run refused before registration has its signal channel closed; R-WORKDONE - output data is a map; R-RELOCK as in C06. Decided: R-STICKY - every failed read from the stream (and every failure of the handshake after the hello message) is remembered in the client's error field, which is never cleared, and a run is registered / a reply is read directly only where that field was found nil under the right mutex: later Execute calls fail instead of reading from the middle of a damaged stream; R-SIGCHAN - a close of a caller's signal channel cannot hit a send in flight (goroutine confinement, the state mutex, or the hand-over marker), goes with the removal of the table entry, and follows every end of a run (result stored, or pending entry removed without one). R-WORKDONE - success results only from work-done messages with an output ID and output data; R-CLIENTPANIC - no explicit panic reachable from the client's methods beyond two accepted invariants. R-DELIVER - every decode/unmarshal error in the client reaches the affected waiter(s) (result store + wake-up) or the caller's return value, " +
+		Explanation: "Decided: R-SIGCHAN never-registered clause - every return of a client method that was given the caller's signal channel lies behind a hand-over of the channel, a close or a deferred one; R-WORKDONE step clause - a decoded work-done message becomes a result only where its step ID was compared with the run's step. Decided: R-DELIVER per-run deliveries - a result or step-fatal error that reaches no waiting call breaks the stream; R-SIGCHAN refusal clause - a run refused before registration has its signal channel closed; R-WORKDONE - output data is a map; R-RELOCK as in C06. Decided: R-STICKY - every failed read from the stream (and every failure of the handshake after the hello message) is remembered in the client's error field, which is never cleared, and a run is registered / a reply is read directly only where that field was found nil under the right mutex: later Execute calls fail instead of reading from the middle of a damaged stream; R-SIGCHAN - a close of a caller's signal channel cannot hit a send in flight (goroutine confinement, the state mutex, or the hand-over marker), goes with the removal of the table entry, and follows every end of a run (result stored, or pending entry removed without one). R-WORKDONE - success results only from work-done messages with an output ID and output data; R-CLIENTPANIC - no explicit panic reachable from the client's methods beyond two accepted invariants. R-DELIVER - every decode/unmarshal error in the client reaches the affected waiter(s) (result store + wake-up) or the caller's return value, " +
 			"every decoded runtime message is handed to a handler, and a decoded result is delivered where the pending table is known to hold its run or else fails all waiters; R-MUSTPASS - every exit of the read loop has failed all waiters or found none, and cleared the running " +
 			"flag in that critical section, so later Execute calls start a new reader (which fails again on a dead stream); R-WG(c) - Close cancels before it waits. " +
 			"R-STRICTDEC - every CBOR decoding call in the client's methods uses the client's strict DecMode (unknown fields are errors), never the package-level cbor.Unmarshal / NewDecoder; R-DECODEEXIT - as in C07. NOT decided: which corruptions the CBOR decoder reports as errors; timing.",
@@ -326,9 +326,9 @@ func init() {
 	register(&PropSpec{
 		ID: "C10",
 		Explanation: "Decided: R-EXPLICIT checked-at-link discharge - a schema-state panic whose condition linking evaluates first (root object, defaults) cannot be the first thing a received description meets. Decided: R-EXPLICIT without the well-formedness assumptions - every explicit panic reachable from UnserializeSchema / UnserializeScope / ReadSchema or from the " +
-			"data API is classified; a guard that depends only on schema state which a received description can produce is a violation (12 such sites, all on first use of an accepted description, are genuine, demonstrated " +
+			"data API is classified; a guard that depends only on schema state which a received description can produce is a violation (9 such sites, all on first use of an accepted description with a reference into a namespace nobody applies, are genuine, demonstrated " +
 			"defects recorded as known findings; the loaders themselves recover linking panics, each keyed separately so a new panic path is still reported); R-FORWARD - the loaders link every scope they return; " +
-			"R-ASSERT - the loaders' own type assertions are justified by the meta-root argument. Also decided: R-DIVZERO, R-MUSTCALL (no Must* constructor on run-time patterns), R-TERM (recursion through received references: 3 demonstrated stack overflows are known findings). NOT decided: semantic usability of an accepted description; panics from " +
+			"R-ASSERT - the loaders' own type assertions are justified by the meta-root argument. Also decided: R-DIVZERO, R-MUSTCALL (no Must* constructor on run-time patterns), R-TERM (recursion through received references: the demonstrated stack overflows are repaired; the re-seeding of Unserialize with defaults is bounded by a guard, exception E-DEFAULTGUARD). NOT decided: semantic usability of an accepted description; panics from " +
 			"reflection inside the struct mapper (covered by its recover scope).",
 		Assumptions: []string{"table entries produced by the struct mapper are non-nil (A2 holds for wire-built schemas too)"},
 		Rules: []func(*Ctx){
@@ -359,7 +359,7 @@ func init() {
 	})
 	register(&PropSpec{
 		ID: "C14",
-		Explanation: "Decided: R-TERM (data mode, as under C04) - recursion through references is driven by the input or bounded. Decided: R-FORWARD - ApplyNamespace of every container forwards to every child (json-tagged Serializable field, or map/slice of such; inside a loop for " +
+		Explanation: "Decided: R-KEYID - the scope's own table is handed down for linking only after every entry's ID was compared with its key; R-KINDSIB - a case distinction over TypeID() with cases for the reference and the object has one for the scope. Decided: R-TERM (data mode, as under C04) - recursion through references is driven by the input or bounded. Decided: R-FORWARD - ApplyNamespace of every container forwards to every child (json-tagged Serializable field, or map/slice of such; inside a loop for " +
 			"collections) with the namespace string and the object table unchanged; the scope hands down its own table exactly for the self namespace and the external " +
 			"table otherwise; the reference links only when the namespace matches, to objects[its own ID]; ValidateReferences visits every child, returns its verdict, and " +
 			"succeeds for a reference iff it is linked; the loaders link all scopes. R-NSDEREF - code that runs while a namespace is being applied uses a child Object through a method that needs a linked reference (the RefSchema methods that panic on a nil cache) only where the child is known not to be an unlinked reference. NOT decided: the metamorphic 'inline the reference' equivalence over inputs; " +
@@ -376,13 +376,13 @@ func init() {
 	})
 	register(&PropSpec{
 		ID: "C15",
-		Explanation: "R-MUSTUSE cross-kind clause - a bounded kind accepts a producer of another kind only after a look at its own bounds; R-DISABLED (schema mode) - a disabled property does not accept a producer that requires it. Decided for the schema-mode code of every ValidateCompatibility: R-KINDGATE - every `return nil` is dominated by a gate that separates the receiver's kind " +
+		Explanation: "Decided: R-REFLEX - no schema-mode rejection whose path condition consists of flags only (bool fields and getters of the two schemas, optional fields set or not) is consistent once the producer is read as the consumer: no such schema is refused as its own producer; R-DISABLED - a producer that declares a property but has it disabled does not supply it, and no accepting return goes round the loop over the consumer's required properties; R-TERM schema mode - the comparison carries the set of object pairs it has entered (visited-pairs discharge). R-MUSTUSE cross-kind clause - a bounded kind accepts a producer of another kind only after a look at its own bounds; R-DISABLED (schema mode) - a disabled property does not accept a producer that requires it. Decided for the schema-mode code of every ValidateCompatibility: R-KINDGATE - every `return nil` is dominated by a gate that separates the receiver's kind " +
 			"from all others (TypeID comparison, assertion to a concrete schema type, kind whitelist, conversion helper, or a reflective field probe whose embedders all report " +
 			"one TypeID) or lies in data mode; R-OVERLAP - the range comparisons are in normal form (reject iff other.min > self.max or other.max < self.min) and, by " +
 			"enumeration of all acyclic paths from the point where both schemas' bounds are available, every accepting path has decided both bound pairs (nil bound or " +
 			"comparison with the accepting outcome) - for all combinations of present/absent bounds; R-MUSTUSE - every kind with min/max consults them in schema mode (the " +
 			"list kind did not: found and repaired); R-NILGUARD - optional bounds are dereferenced only under their own nil guard; R-MAPORDER - the verdict does not depend on " +
-			"map iteration order. R-TERM (schema mode) - every reference-dereference cycle below a schema-mode hand-over is unbounded (demonstrated known finding); R-EFFECT - no write to shared state during a comparison. NOT decided: reflexivity as a value-level statement, completeness of the catalogue " +
+			"map iteration order. R-TERM (schema mode) - every reference-dereference cycle below a schema-mode hand-over passes the function that keeps the set of object pairs entered (repaired by 6f90fa9); R-EFFECT - no write to shared state during a comparison. NOT decided: reflexivity as a value-level statement, completeness of the catalogue " +
 			"of rejections beyond kind, bounds and the loops' verdict classes.",
 		Assumptions: []string{wellFormed},
 		Rules: []func(*Ctx){
@@ -426,7 +426,7 @@ func init() {
 	})
 	register(&PropSpec{
 		ID: "C17",
-		Explanation: "Decided: R-ELEMPATH - an error a container raises about one of its own elements (undeclared key, discriminator) stores a path segment for it. Decided: R-ERRORIGIN - interprocedural error-origin summaries show that every error value that can leave Unserialize / Validate (and typed variants) of any " +
+		Explanation: "Decided: R-SEGKIND - every path segment added below Unserialize / Validate is made of a key of the data or of a property table, a loop index, a converted key or a parameter; R-ELEMPATH clause 3 - a rejection whose text names the key its loop is at stores a path. Decided: R-ELEMPATH - an error a container raises about one of its own elements (undeclared key, discriminator) stores a path segment for it. Decided: R-ERRORIGIN - interprocedural error-origin summaries show that every error value that can leave Unserialize / Validate (and typed variants) of any " +
 			"schema type originates as a *ConstraintError (origins in schema-mode compatibility code, reached only when the argument is itself a schema, are listed, not " +
 			"claimed); R-PATHSEG - wherever the failure of a child operation decides a rejecting return, the returned error is the child's error itself or that error " +
 			"passed through ConstraintErrorAddPathSegment; a container returning an element's error inside its loop without a segment, or any function replacing the child's " +
@@ -458,7 +458,7 @@ func init() {
 	register(&PropSpec{
 		ID:       "C19",
 		NeedsGen: true,
-		Explanation: "R-FLOW declared-name clause - a reference to an object of the schema uses the name the object is declared under; R-YAMLNIL - no pointer read from a decoded map is dereferenced without a nil test. Decided for module `codegen`: R-INDEX - every constant index into os.Args beyond the schema file is dominated by a length test (no panic without the ignore " +
+		Explanation: "Decided: R-FLOW - a referenced ID that is a Go keyword is never emitted as it is; values derived from os.Args are printed into the source under %q only; the function that names declarations passes the whole ID to no case-mapping function. NOT decided: steps other than `create`. R-FLOW declared-name clause - a reference to an object of the schema uses the name the object is declared under; R-YAMLNIL - no pointer read from a decoded map is dereferenced without a nil test. Decided for module `codegen`: R-INDEX - every constant index into os.Args beyond the schema file is dominated by a length test (no panic without the ignore " +
 			"argument); R-EXPLICIT - the only explicit panic is the environment abort check(err); R-MAPORDER - what is written to the output inside loops over the YAML-decoded maps " +
 			"is ordered by a total-order sort of the keys first (byte-identical output on re-runs); R-FLOW - the ignore argument is compared with the object's map key itself, " +
 			"parseType is exactly integer->int64 / float->float64 / identity, and a field's type is the referenced ID for refs and the type ID otherwise. " +
@@ -487,7 +487,7 @@ func init() {
 	})
 	register(&PropSpec{
 		ID: "C12",
-		Explanation: "Decided: R-FIELDUNIQ - no two properties are mapped to one struct field. Decided: R-EFFECT - every write instruction (store, map update, delete, append into a non-fresh slice, mutating library call) in the functions reachable from " +
+		Explanation: "Decided: R-FIELDUNIQ scan clause - no two properties mapped to a struct field and a field inside it; R-MAPORDER error-text clause - a list collected from a map that ends up in the text of a returned error is sorted. NOT decided: which of several faults of one input is reported. Decided: R-FIELDUNIQ - no two properties are mapped to one struct field. Decided: R-EFFECT - every write instruction (store, map update, delete, append into a non-fresh slice, mutating library call) in the functions reachable from " +
 			"the pure API is classified by an interprocedural origin analysis; only writes to memory allocated during the call, and idempotent lazy cache fills (written only " +
 			"while nil, in a function whose sole input is the receiver), are accepted; R-MAPORDER - every loop over a map has early exits of one verdict class and sorts " +
 			"order-sensitive accumulations with a total order unless they only feed an error message. R-MAPORDER also covers MapRange loops and loop-carried reads (a loop that fills a map reads it only at its own key). NOT decided: equality of repeated results as values.",
